@@ -6,7 +6,9 @@ cd "$(dirname "$0")"
 export GOFLAGS=-mod=mod GOPROXY=off GOSUMDB=off GOTOOLCHAIN=local CGO_ENABLED=1
 ID="$1"; MODE="${2:-quick}"
 mkdir -p bin evidence out
-cp /repo/go.sum fxsim/go.sum 2>/dev/null
+REPO="${VERIF_REPO:-/repo}"   # soak runs from a snapshot name another copy of the tree; the registered commands use /repo
+if [ "$REPO" != "/repo" ]; then sed -i "s#=> /repo\$#=> $REPO#; s#=> /repo #=> $REPO #" fxsim/go.mod; fi
+cp "$REPO/go.sum" fxsim/go.sum 2>/dev/null
 # always rebuild from /repo's current working tree (Go's build cache makes this a no-op when unchanged)
 if ! (cd fxsim && go build -tags verif -o ../bin/fxsim ./cmd/fxsim) > .build.$ID.log 2>&1; then
   echo "INFRA: build failed"; tail -n 40 .build.$ID.log; rm -f .build.$ID.log; exit 2
